@@ -178,8 +178,11 @@ impl Tunnel {
                         return;
                     }
                     (Err(e), ..) => {
+                        // credentials that cannot be understood are not valid credentials
                         log_id!(debug, request_id, "Failed to get auth info: {}", e);
-                        request.fail_request(ConnectionError::Io(e));
+                        request.fail_request(ConnectionError::Authentication(
+                            "Malformed authentication info".to_string(),
+                        ));
                         return;
                     }
                 };
